@@ -24,6 +24,11 @@
    UNLOCK = "deferred" is a plausible "hardening" of Close (defer Unlock right after Lock): the mutex is then
    held while Close waits for the watcher, which may be waiting for the mutex.
 
+   Reentrant = TRUE adds the operation "directRe": a Direct from an allowed peer whose allow-peer callback itself calls
+   UncacheCid before it answers (ra0 Lock -> ra1 remove, unlock -> d1 ...).  The callback runs before Direct takes the
+   mutex (ALLOWPOS = "before", the code); ALLOWPOS = "under" is the plausible slip of consulting it inside the critical
+   section: the callback then waits for a mutex its own goroutine holds, and nothing that needs the mutex ever returns.
+
    Properties: once some Close has been called every call ever started returns and the watcher exits
    (Termination, under weak fairness of every thread and the watcher); result table (ResultsOK); the mutex
    is free whenever nobody is inside a critical section (MutexReleased).                               *)
@@ -36,9 +41,12 @@ CONSTANTS Threads,      \* API callers (positive integers)
           MaxMsgs,      \* pubsub messages that may arrive
           MaxRestarts,  \* spurious subscription errors (restart path of the watcher)
           Resend,       \* BOOLEAN: direct announcements are re-published on the topic (and come back to the watcher)
-          Cancels       \* BOOLEAN: the context of a Direct / Next call may be cancelled while the call is under way
+          Cancels,      \* BOOLEAN: the context of a Direct / Next call may be cancelled while the call is under way
+          Reentrant,    \* BOOLEAN: operation "directRe" (the allow-peer callback calls UncacheCid)
+          ALLOWPOS      \* "before" (the code) | "under": where the allow-peer callback runs relative to the mutex
 W == 0 - 1              \* the watcher's identity as a mutex holder
-Ops == {"close", "directOk", "directNo", "next", "uncache"}
+Ops == {"close", "directOk", "directNo", "next", "uncache"} \cup (IF Reentrant THEN {"directRe"} ELSE {})
+Directs == {"directOk", "directRe"}
 
 VARIABLES pcs, op, ncalls, mutex, closed, done, out, res, closeCalled, closeReturned, startedAfterClose, cancelled,
           wpc, msgs, published, restarts, subCancelled, watchCancelled, watchDone
@@ -67,12 +75,13 @@ Start(t, o) == /\ pcs[t] = "idle" /\ (MaxCalls = 0 \/ ncalls[t] < MaxCalls)
                /\ cancelled' = [cancelled EXCEPT ![t] = FALSE]
                /\ closeCalled' = (closeCalled \/ o = "close")
                /\ Goto(t, CASE o = "close" -> "c0" [] o = "directOk" -> "d1" [] o = "directNo" -> "d0"
+                            [] o = "directRe" -> (IF ALLOWPOS = "before" THEN "ra0" ELSE "rb0")
                             [] o = "next" -> "n0" [] OTHER -> "u0")
                /\ UNCHANGED <<mutex, closed, done, out, wvars, subCancelled, watchCancelled, watchDone>>
 
 Same == UNCHANGED <<op, ncalls, closeCalled, startedAfterClose, cancelled>>
 (* the caller cancels the context of its Direct / Next call (environment) *)
-Cancel(t) == /\ Cancels /\ pcs[t] # "idle" /\ op[t] \in {"directOk", "next"} /\ ~cancelled[t]
+Cancel(t) == /\ Cancels /\ pcs[t] # "idle" /\ op[t] \in Directs \cup {"next"} /\ ~cancelled[t]
              /\ cancelled' = [cancelled EXCEPT ![t] = TRUE]
              /\ UNCHANGED <<pcs, op, ncalls, mutex, closed, done, out, res, closeCalled, closeReturned, startedAfterClose,
                             wpc, msgs, published, restarts, subCancelled, watchCancelled, watchDone>>
@@ -99,6 +108,13 @@ C5(t) == /\ pcs[t] = "c5" /\ watchDone /\ Goto(t, "cret") /\ Same
 CRet(t) == /\ pcs[t] = "cret" /\ Return(t, "nil") /\ Same
            /\ mutex' = IF UNLOCK = "deferred" /\ mutex = t THEN 0 ELSE mutex      \* a deferred Unlock runs at return
            /\ UNCHANGED <<closed, done, out, wvars, subCancelled, watchCancelled, watchDone>>
+
+(* ---- Direct whose allow-peer callback calls UncacheCid ---- *)
+RA1(t) == /\ pcs[t] = "ra1" /\ mutex' = 0 /\ Goto(t, "d1") /\ Same          \* the callback's UncacheCid is done; the callback answers "allowed"
+          /\ UNCHANGED <<closed, done, out, wvars, subCancelled, watchCancelled, watchDone>>
+(* ALLOWPOS = "under": Direct has taken the mutex (rb0 -> ra0x) and calls the callback, whose UncacheCid needs the mutex *)
+RBStuck(t) == /\ pcs[t] = "ra0x" /\ mutex = 0 /\ mutex' = t /\ Goto(t, "ra1") /\ Same      \* never enabled: t itself holds the mutex
+              /\ UNCHANGED <<closed, done, out, wvars, subCancelled, watchCancelled, watchDone>>
 
 (* ---- Direct ---- *)
 D0(t) == /\ pcs[t] = "d0" /\ Return(t, "nil") /\ Same          \* peer not allowed: ignored
@@ -139,6 +155,7 @@ Step(t) == \/ \E o \in Ops : Start(t, o)
            \/ Lock(t, "c0", "c1") \/ C1(t) \/ C2(t) \/ C3(t) \/ C4(t) \/ C5(t) \/ CRet(t)
            \/ D0(t) \/ Lock(t, "d1", "d2") \/ D2(t) \/ DRet(t) \/ D3(t) \/ D4(t)
            \/ N0(t) \/ NGot(t) \/ Lock(t, "u0", "u1") \/ U1(t) \/ URet(t)
+           \/ Lock(t, "ra0", "ra1") \/ RA1(t) \/ Lock(t, "rb0", "ra0x") \/ RBStuck(t)
 
 (* ---- the pubsub watcher ---- *)
 TU == UNCHANGED <<pcs, op, ncalls, res, closeCalled, closeReturned, startedAfterClose, cancelled>>
@@ -189,15 +206,15 @@ Termination == (<>closeCalled) => <>AllDone
 Returns == \A t \in Threads : (closeCalled /\ pcs[t] # "idle") ~> (pcs[t] = "idle")
 WatcherExits == closeCalled ~> (wpc \in {"none", "done"})
 InCritical(t) == IF t = W THEN wpc \in {"check", "r2"}
-                 ELSE pcs[t] \in {"c1", "c2", "d2", "u1"} \/ (UNLOCK = "deferred" /\ pcs[t] \in {"c3", "c4", "c5", "cret"})
+                 ELSE pcs[t] \in {"c1", "c2", "d2", "u1", "ra1", "ra0x"} \/ (UNLOCK = "deferred" /\ pcs[t] \in {"c3", "c4", "c5", "cret"})
 MutexReleased == mutex # 0 => InCritical(mutex)
 ResultsOK ==
   \A t \in Threads : \A i \in 1..Len(res[t]) :
      LET e == res[t][i] IN
        /\ e.op = "close" => e.r = "nil"
        /\ e.op = "directNo" => e.r = "nil"
-       /\ (e.op = "directOk" /\ e.late) => e.r = "closed"
+       /\ (e.op \in Directs /\ e.late) => e.r = "closed"
        /\ (e.op = "next" /\ e.r = "closed") => done
-       /\ e.r = "cancelled" => (Cancels /\ e.op \in {"directOk", "next"})
+       /\ e.r = "cancelled" => (Cancels /\ e.op \in Directs \cup {"next"})
        /\ e.op = "uncache" => e.r = "nil"
 =============================================================================
